@@ -122,9 +122,10 @@ def process_nodes_recursive(
             bg_decl = None
 
             for decl in valid_decls:
-                if decl.name == "color":
+                # CSS property names are case-insensitive (COLOR: #777 is a text colour)
+                if decl.lower_name == "color":
                     color_decl = decl
-                elif decl.name == "background-color":
+                elif decl.lower_name == "background-color":
                     bg_decl = decl
 
             if color_decl:
